@@ -5,7 +5,8 @@
 (* "bal" per daily balance (positive integers in units of 1/U), then one         *)
 (* "metrics" event with the returned dictionary.  The spec folds the inputs      *)
 (* event by event (MetricsDef: AggStep, DDStep) and judges the reported values   *)
-(* in the last step; verdict = the name of the first metric that is wrong.       *)
+(* in the last step; verdict = the first wrong trade metric and every wrong       *)
+(* equity ratio (<<>> = accepted).                                               *)
 (*                                                                             *)
 (* A reported float x arrives as [nan, inf, n, d, close, sign]: n/d is the       *)
 (* fraction with denominator <= MaxDen nearest to x and close says that it is    *)
@@ -21,7 +22,7 @@ vars == <<tid, l, agg, nb, bals, d1, d2, verdict, skipped>>
 Ev(t) == Traces[t].ev
 Hdr(t) == Traces[t].hdr
 Init == /\ tid \in 1..Len(Traces) /\ l = 1 /\ agg = Agg0 /\ nb = 0 /\ bals = <<>> /\ d1 = DD0(1) /\ d2 = DD0(1)
-        /\ verdict = "ok" /\ skipped = 0
+        /\ verdict = <<>> /\ skipped = 0
 
 Inside(r) == Norm(r)[2] <= MaxDen
 Match(x, r) == ~x.nan /\ x.inf = 0 /\ x.close /\ <<x.n, x.d>> = Norm(r)
@@ -57,33 +58,41 @@ SkippedTrade(a, U, start) ==
   + (IF a.l = 0 \/ Inside(<<-a.gl, U * a.l>>) THEN 0 ELSE 1) + (IF a.w + a.l = 0 \/ Inside(<<a.net, U * (a.w + a.l)>>) THEN 0 ELSE 1)
 
 Times100(r) == <<100 * r[1], r[2]>>
-\* equity ratios; `short` = the balance list is short and small enough for the return-based ratios
-EquityVerdict(m, short) ==
-  LET std == Times100(DDValue(d1))  impl == Times100(DDValue(d2)) IN
-  IF m.max_drawdown.nan \/ m.max_drawdown.inf # 0 THEN "max_drawdown:not-a-number"
-  ELSE IF m.max_drawdown.sign > 0 THEN "max_drawdown:positive"
-  ELSE IF Inside(std) /\ ~Match(m.max_drawdown, std)
-       THEN (IF Match(m.max_drawdown, impl) THEN "max_drawdown:starting-balance-not-a-peak" ELSE "max_drawdown")
-  ELSE IF short /\ OmegaDefined(bals) /\ Inside(Omega(bals)) /\ ~Match(m.omega_ratio, Omega(bals)) THEN "omega_ratio"
-  ELSE IF short /\ SharpeDefined(bals) /\ Inside(Sharpe2(bals))
-          /\ ~(Match(m.sharpe2, Sharpe2(bals)) /\ m.sharpe_ratio.sign = MeanSign(bals)) THEN "sharpe_ratio"
-  ELSE IF short /\ SortinoDefined(bals) /\ Inside(Sortino2(bals))
-          /\ ~(Match(m.sortino2, Sortino2(bals)) /\ m.sortino_ratio.sign = MeanSign(bals)) THEN "sortino_ratio"
-  ELSE IF nb = 366 /\ Inside(Times100(Norm(<<bals[2] - bals[1], bals[1]>>)))
-          /\ ~Match(m.annual_return, Times100(<<bals[2] - bals[1], bals[1]>>)) THEN "annual_return"
-  ELSE IF nb = 366 THEN
-       LET c == Norm(<<bals[2] - bals[1], bals[1]>>)
-           cal(d) == IF d[1] = 0 THEN <<0, 1>> ELSE Norm(<<c[1] * d[2], c[2] * (-d[1])>>)
-           cs == cal(DDValue(d1))  ci == cal(DDValue(d2)) IN
-       IF Inside(cs) /\ ~Match(m.calmar_ratio, cs)
-       THEN (IF Match(m.calmar_ratio, ci) THEN "calmar_ratio:starting-balance-not-a-peak" ELSE "calmar_ratio") ELSE "ok"
-  ELSE "ok"
+\* equity ratios; `short` = the balance list is short and small enough for the return-based ratios.
+\* Every ratio is judged on its own: the result is the sequence of failing clauses (<<>> = all fine).
+Keep(seq) == SelectSeq(seq, LAMBDA v : v # "ok")
+EquityFails(m, short) ==
+  LET std == Times100(DDValue(d1))  impl == Times100(DDValue(d2))
+      dd == IF m.max_drawdown.nan \/ m.max_drawdown.inf # 0 THEN "max_drawdown:not-a-number"
+            ELSE IF m.max_drawdown.sign > 0 THEN "max_drawdown:positive"
+            ELSE IF Inside(std) /\ ~Match(m.max_drawdown, std)
+                 THEN (IF Match(m.max_drawdown, impl) THEN "max_drawdown:starting-balance-not-a-peak" ELSE "max_drawdown")
+            ELSE "ok"
+      om == IF short /\ OmegaDefined(bals) /\ Inside(Omega(bals)) /\ ~Match(m.omega_ratio, Omega(bals)) THEN "omega_ratio" ELSE "ok"
+      sh == IF short /\ SharpeDefined(bals) /\ Inside(Sharpe2(bals))
+               /\ ~(Match(m.sharpe2, Sharpe2(bals)) /\ (Sharpe2(bals)[1] = 0 \/ m.sharpe_ratio.sign = MeanSign(bals)))
+            THEN "sharpe_ratio" ELSE "ok"
+      so == IF short /\ SortinoDefined(bals) /\ Inside(Sortino2(bals))
+               /\ ~(Match(m.sortino2, Sortino2(bals)) /\ (Sortino2(bals)[1] = 0 \/ m.sortino_ratio.sign = MeanSign(bals)))
+            THEN (IF Inside(Sortino2Impl(bals)) /\ Match(m.sortino2, Sortino2Impl(bals))
+                  THEN "sortino_ratio:downside-deviation-divided-by-samples-not-returns" ELSE "sortino_ratio")
+            ELSE "ok"
+      c == Norm(<<bals[Len(bals)] - bals[1], bals[1]>>)
+      ar == IF nb = 366 /\ Inside(Times100(c)) /\ ~Match(m.annual_return, Times100(c)) THEN "annual_return" ELSE "ok"
+      cal(d) == IF d[1] = 0 THEN <<0, 1>> ELSE Norm(<<c[1] * d[2], c[2] * (-d[1])>>)
+      cs == cal(DDValue(d1))  ci == cal(DDValue(d2))
+      ca == IF nb = 366 /\ Inside(cs) /\ ~Match(m.calmar_ratio, cs)
+            \* the understated drawdown propagates into Calmar; when that variant's value is outside the lattice it cannot
+            \* be confirmed digit by digit and the mismatch is attributed to the drawdown defect established above
+            THEN (IF DDValue(d1) # DDValue(d2) /\ (~Inside(ci) \/ Match(m.calmar_ratio, ci))
+                  THEN "calmar_ratio:starting-balance-not-a-peak" ELSE "calmar_ratio") ELSE "ok"
+  IN Keep(<<dd, om, sh, so, ar, ca>>)
 
 FirstBad(checks) == LET bad == {i \in DOMAIN checks : ~checks[i][2]} IN
                     IF bad = {} THEN "ok" ELSE checks[CHOOSE i \in bad : \A j \in bad : i <= j][1]
 
 Step ==
-  /\ verdict = "ok" /\ l <= Len(Ev(tid))
+  /\ verdict = <<>> /\ l <= Len(Ev(tid))
   /\ LET e == Ev(tid)[l]  h == Hdr(tid) IN
      CASE e.k = "trade" ->
             /\ agg' = AggStep(agg, [pnl |-> e.pnl, typ |-> e.typ, fee |-> e.fee])
@@ -96,15 +105,15 @@ Step ==
             /\ d2' = (IF nb <= 1 THEN DD0(e.x) ELSE DDStep(d2, e.x))
             /\ UNCHANGED <<agg, verdict, skipped>>
        [] e.k = "metrics" ->
-            /\ verdict' = (IF e.exc # "none" THEN "raises:" \o e.exc
-                           ELSE IF agg.n = 0 THEN FirstBad(<< <<"total", IsInt(e.m.total, 0)>>, <<"win_rate", IsInt(e.m.win_rate, 0)>>,
-                                                             <<"net_profit_percentage", IsInt(e.m.net_profit_percentage, 0)>> >>)
-                           ELSE LET tv == FirstBad(TradeChecks(e.m, agg, h.U, h.start)) IN
-                                IF tv # "ok" THEN tv ELSE IF nb >= 2 THEN EquityVerdict(e.m, h.short) ELSE "ok")
+            /\ verdict' = (IF e.exc # "none" THEN <<"raises:" \o e.exc>>
+                           ELSE IF agg.n = 0 THEN Keep(<<FirstBad(<< <<"total", IsInt(e.m.total, 0)>>, <<"win_rate", IsInt(e.m.win_rate, 0)>>,
+                                                             <<"net_profit_percentage", IsInt(e.m.net_profit_percentage, 0)>> >>)>>)
+                           ELSE Keep(<<FirstBad(TradeChecks(e.m, agg, h.U, h.start))>>)
+                                \o (IF nb >= 2 THEN EquityFails(e.m, h.short) ELSE <<>>))
             /\ skipped' = (IF agg.n = 0 THEN 0 ELSE SkippedTrade(agg, h.U, h.start))
             /\ UNCHANGED <<agg, nb, bals, d1, d2>>
   /\ l' = l + 1 /\ UNCHANGED tid
 Spec == Init /\ [][Step]_vars
-Finished == verdict # "ok" \/ l > Len(Ev(tid))
+Finished == verdict # <<>> \/ l > Len(Ev(tid))
 Report == Finished => PrintT(<<"VERDICT", Traces[tid].id, l - 1, verdict, skipped>>)
 =============================================================================
